@@ -63,6 +63,10 @@ pub struct RunCfg {
     pub rival: Option<Rival>,
     /// record the route of every shred (C16 node-level delivery monitor)
     pub track_routes: bool,
+    /// force one behaviour on every Byzantine voter
+    pub force_byz_mode: Option<ByzVote>,
+    /// see `SchedState::slow_diss`
+    pub slow_diss: Option<usize>,
     pub label: String,
 }
 
@@ -138,6 +142,7 @@ pub async fn execute(cfg: &RunCfg, rng: &mut SRng) -> RunOut {
         delta: cfg.delta,
         withhold: cfg.withhold.iter().cloned().collect(),
         delivered_late: 0,
+        slow_diss: cfg.slow_diss,
         rival: cfg.rival.as_ref().map(|r| RivalSched { pair: (r.u, r.a), slot: None, vote_delay: Duration::from_millis(5000), cert_delay: Duration::from_millis(rng.random_range(150..380)), held_votes: 0, held_certs: 0, next_leader: (r.z + 1) % n, hash_a: None, hold_a: Duration::from_millis(450) }),
     }));
     cl.log.lock().unwrap().track_routes = cfg.track_routes;
@@ -146,6 +151,11 @@ pub async fn execute(cfg: &RunCfg, rng: &mut SRng) -> RunOut {
     if !cfg.byz_votes {
         for m in byz.mode.values_mut() {
             *m = ByzVote::Silent;
+        }
+    }
+    if let Some(fm) = cfg.force_byz_mode {
+        for m in byz.mode.values_mut() {
+            *m = fm;
         }
     }
     if cfg.rival.is_some() {
